@@ -443,6 +443,8 @@ def ob_key(build, ob):
         m = re.match(r"(.*_harness)_\w+\.rs$", hf or "")
         if m:   # an extension file may use the helpers of the base harness file
             parts.append(_file_hash(os.path.join(KANI_DIR, m.group(1) + ".rs")))
+        for dep in HARNESS_FILE_DEPS.get(hf or "", ()):
+            parts.append(_file_hash(os.path.join(KANI_DIR, dep)))
         for f in SHARED_HARNESS_FILES:
             parts.append(_file_hash(os.path.join(KANI_DIR, f)))
     return sha("\n".join(parts).encode())[:32]
